@@ -21,7 +21,8 @@
 //     are manual, everything else is automatic.
 //     Two framings: stream (Deliver writes a 2-byte length prefix; the reader may fetch the
 //     frame with any number of Reads; the Deliver event is logged when the LAST byte has been
-//     returned) and datagram (one Deliver = one Read).
+//     returned) and datagram (one Deliver = one Read).  DeliverLast makes the Read that returns the last byte
+//     also return an error (n > 0, io.EOF in one call).
 //     Close makes the pending Read and every later Read/Write fail with net.ErrClosed, like a
 //     socket. A Write that is already pending stays with the controller: its bytes may have
 //     left before the close, so it may still return nil (or an error, the controller decides).
@@ -113,6 +114,22 @@ func (r *Recorder) Events() []Event {
 	r.mu.Lock()
 	defer r.mu.Unlock()
 	return append([]Event(nil), r.evs...)
+}
+
+// Len returns the number of events currently held; Truncate(n) drops the events recorded after the n-th
+// (used by stress drivers to keep only the interesting rounds of a long run).
+func (r *Recorder) Len() int {
+	r.mu.Lock()
+	defer r.mu.Unlock()
+	return len(r.evs)
+}
+
+func (r *Recorder) Truncate(n int) {
+	r.mu.Lock()
+	defer r.mu.Unlock()
+	if n >= 0 && n < len(r.evs) {
+		r.evs = r.evs[:n]
+	}
 }
 
 // Take returns the recorded events and clears the buffer (sequence numbers keep growing).
@@ -208,6 +225,9 @@ type Conn struct {
 	rnote    []any
 	rlen     int
 	rdrained chan struct{}
+	// DeliverLast: error returned together with the last chunk, then by every later Read
+	rfinalErr, stickyErr   error
+	rfinalKind, stickyKind string
 
 	// virtual clock and armed read deadline
 	vnow     time.Duration
@@ -272,7 +292,15 @@ func (c *Conn) serveRead(op *Op) bool {
 	op.n = n
 	if len(c.rbuf) == 0 {
 		c.rbuf = nil
-		c.log("Deliver", nil, append([]any{"len", c.rlen}, c.rnote...)...)
+		if c.rfinalErr != nil {
+			// "last chunk together with EOF/error": this Read returns (n > 0, err); every later Read fails with
+			// the same error at once (logged as ReadFail when it happens)
+			op.err, c.stickyErr, c.stickyKind = c.rfinalErr, c.rfinalErr, c.rfinalKind
+			c.rfinalErr = nil
+			c.log("Deliver", nil, append([]any{"len", c.rlen, "with_err", c.stickyKind}, c.rnote...)...)
+		} else {
+			c.log("Deliver", nil, append([]any{"len", c.rlen}, c.rnote...)...)
+		}
 		if c.rdrained != nil {
 			close(c.rdrained)
 			c.rdrained = nil
@@ -358,7 +386,14 @@ func (c *Conn) do(op *Op) (int, error) {
 	if op.Kind == OpRead && c.serveRead(op) {
 		c.mu.Unlock()
 		c.kick()
-		return op.n, nil
+		return op.n, op.err
+	}
+	if op.Kind == OpRead && c.stickyErr != nil { // the stream ended together with the last delivered chunk
+		c.log("ReadFail", op, "kind", c.stickyKind)
+		err := c.stickyErr
+		c.mu.Unlock()
+		c.kick()
+		return 0, err
 	}
 	if !c.manual(op) {
 		c.applyLocked(op)
@@ -545,6 +580,22 @@ func (c *Conn) Deliver(msg []byte, timeout time.Duration, note ...any) bool {
 	case <-t.C:
 		return false
 	}
+}
+
+// DeliverLast is Deliver, but the Read that returns the LAST byte of the message also returns err (n > 0 and
+// err != nil in ONE call, as tls.Conn does when close_notify follows the data record, or a QUIC stream with FIN);
+// every later Read fails with err immediately ("ReadFail{kind}" is logged then). Stream and datagram framing.
+func (c *Conn) DeliverLast(msg []byte, err error, kind string, timeout time.Duration, note ...any) bool {
+	c.mu.Lock()
+	c.rfinalErr, c.rfinalKind = err, kind
+	c.mu.Unlock()
+	ok := c.Deliver(msg, timeout, note...)
+	if !ok {
+		c.mu.Lock()
+		c.rfinalErr = nil
+		c.mu.Unlock()
+	}
+	return ok
 }
 
 // FailRead completes the pending Read with err (io.EOF, a reset, ...). kind is logged.
